@@ -28,3 +28,33 @@ Definition spec_request_authentic (q sec : bytes) : Prop :=
   (In (Z.of_N c) rfc_verbatim_codes \/
    (In (Z.of_N c) rfc_hashed_request_codes /\ auth_field q = H (covered q zero16 sec))).
 End S.
+
+(* ---- executable oracles ---- *)
+From Radius Require Import Base.Res Base.Guard Model.Attrs Spec.C09 Spec.C01.
+Section Oracles.
+Variable H : bytes -> bytes.
+
+Definition spec_put_auth (b h : bytes) : bytes := firstn 4 b ++ h ++ skipn 20 b.
+
+Definition spec_encode (c : Z) (i : N) (au sec : bytes) (l : attrs) : res bytes :=
+  match spec_marshal c i au l with
+  | Ok w =>
+    if zmem c rfc_verbatim_codes then Ok w
+    else if zmem c rfc_reply_codes then Ok (spec_put_auth w (H (covered w au sec)))
+    else if zmem c rfc_hashed_request_codes then Ok (spec_put_auth w (H (covered w zero16 sec)))
+    else Err E_unknown_code
+  | r => r
+  end.
+
+Definition spec_is_authentic_response (r q sec : bytes) : bool :=
+  (20 <=? length r)%nat && (20 <=? length q)%nat && negb (length sec =? 0)%nat &&
+  beq (auth_field r) (H (covered r (auth_field q) sec)).
+
+Definition spec_is_authentic_request (q sec : bytes) : bool :=
+  (20 <=? length q)%nat && negb (length sec =? 0)%nat &&
+  match q with
+  | c :: _ => zmem (Z.of_N c) rfc_verbatim_codes ||
+              (zmem (Z.of_N c) rfc_hashed_request_codes && beq (auth_field q) (H (covered q zero16 sec)))
+  | [] => false
+  end.
+End Oracles.
